@@ -983,7 +983,12 @@ func (x *Exec) appendOp(st *State, fr *Frame, at ssa.Instruction, args []Val) Va
 	}
 	// general case: abstract content
 	fnm := "arr.append." + mangle(sort)
-	x.D.DeclareFun(fnm, []string{ArraySort(SInt, sort), SInt, SInt, ArraySort(SInt, sort), SInt, SInt}, ArraySort(SInt, sort))
+	if !x.D.HasFun(fnm) {
+		as1 := ArraySort(SInt, sort)
+		x.D.DeclareFun(fnm, []string{as1, SInt, SInt, as1, SInt, SInt}, as1)
+		// content of append(s, t...): normalised to offset 0 — first the old elements, then the added ones
+		x.D.Axiom(fmt.Sprintf("(forall ((a %[1]s) (o Int) (n Int) (b %[1]s) (p Int) (m Int) (i Int)) (! (= (select (%[2]s a o n b p m) i) (ite (and (<= 0 i) (< i n)) (select a (+ o i)) (select b (+ p (- i n))))) :pattern ((select (%[2]s a o n b p m) i))))", as1, fnm))
+	}
 	var addRow, addOff Term
 	if add.T.Sort == SSlice {
 		addRow = Select(arr, App(SRef, "s.base", add.T))
